@@ -300,9 +300,6 @@ package podgroup_info
 //@ end
 
 // ---- priority-queue consumers (scheduler_util.PriorityQueue: counts and membership only, order external) ----------
-// placeholder used only to name the family of interface{} slice cells in `modifies`: the assumed Push/Pop contracts
-// have `modifies q.queue.items[*]`, which for a slice means every cell of that element type
-//@ declare anyQueue() *scheduler_util.PriorityQueue
 //@ define allTasks(q *scheduler_util.PriorityQueue) bool = forall i int :: 0 <= i && i < len(q.queue.items) ==> typeis(q.queue.items[i], "*pod_info.PodInfo")
 //@ define allPodSets(q *scheduler_util.PriorityQueue) bool = forall i int :: 0 <= i && i < len(q.queue.items) ==> typeis(q.queue.items[i], "*sgi.PodSet") && unbox(q.queue.items[i], "*sgi.PodSet") != nil
 
@@ -340,11 +337,13 @@ package podgroup_info
 //@   props C03
 //@   requires tasksOK(subGroup)
 //@   fresh
-//@   modifies anyQueue().queue.items[*]
 //@   loop 1
+//@     invariant forall p *scheduler_util.priorityQueue :: !fresh(p) ==> p.items == old(p.items)   // engine: the loop-head havoc for the Push contract uses an unconstrained receiver (also next line)
+//@     invariant (forall c *interface{} :: !fresh(c) ==> *c == old(*c)) && fresh(priorityQueue.queue.items)
 //@     invariant priorityQueue != nil && fresh(priorityQueue) && allTasks(priorityQueue) && priorityQueue.maxQueueSize == scheduler_util.QueueCapacityInfinite
 //@     invariant forall i int :: 0 <= i && i < len(priorityQueue.queue.items) ==> wantsAlloc(unbox(priorityQueue.queue.items[i], "*pod_info.PodInfo"), isRealAllocation)
 //@     invariant len(priorityQueue.queue.items) > 0 <==> (exists k in visited :: k in subGroup.podInfos && wantsAlloc(subGroup.podInfos[k], isRealAllocation))
+//@   ensures [freshBacking] fresh(result.queue.items)
 //@   ensures result != nil && allTasks(result)
 //@   ensures [onlyWaiting] forall i int :: 0 <= i && i < len(result.queue.items) ==> wantsAlloc(unbox(result.queue.items[i], "*pod_info.PodInfo"), isRealAllocation)
 //@   ensures [nonEmptyIffWaiting] len(result.queue.items) > 0 <==> (exists k in subGroup.podInfos :: wantsAlloc(subGroup.podInfos[k], isRealAllocation))
@@ -355,10 +354,12 @@ package podgroup_info
 //@   props C03
 //@   requires tasksOK(subGroup)
 //@   fresh
-//@   modifies anyQueue().queue.items[*]
 //@   loop 1
+//@     invariant forall p *scheduler_util.priorityQueue :: !fresh(p) ==> p.items == old(p.items)   // engine: the loop-head havoc for the Push contract uses an unconstrained receiver (also next line)
+//@     invariant (forall c *interface{} :: !fresh(c) ==> *c == old(*c)) && fresh(podPriorityQueue.queue.items)
 //@     invariant podPriorityQueue != nil && fresh(podPriorityQueue) && allTasks(podPriorityQueue) && podPriorityQueue.maxQueueSize == scheduler_util.QueueCapacityInfinite
 //@     invariant forall i int :: 0 <= i && i < len(podPriorityQueue.queue.items) ==> pod_status.inActiveAllocated(unbox(podPriorityQueue.queue.items[i], "*pod_info.PodInfo").Status)
+//@   ensures [freshBacking] fresh(result.queue.items)
 //@   ensures result != nil && allTasks(result)
 //@   ensures [onlyActiveAllocated] forall i int :: 0 <= i && i < len(result.queue.items) ==> pod_status.inActiveAllocated(unbox(result.queue.items[i], "*pod_info.PodInfo").Status)
 //@ end
@@ -368,12 +369,82 @@ package podgroup_info
 //@   props C03
 //@   requires forall k in subGroups :: subGroups[k] != nil
 //@   fresh
-//@   modifies anyQueue().queue.items[*]
 //@   loop 1
+//@     invariant forall p *scheduler_util.priorityQueue :: !fresh(p) ==> p.items == old(p.items)   // engine: the loop-head havoc for the Push contract uses an unconstrained receiver (also next line)
+//@     invariant (forall c *interface{} :: !fresh(c) ==> *c == old(*c)) && fresh(priorityQueue.queue.items)
 //@     invariant priorityQueue != nil && fresh(priorityQueue) && allPodSets(priorityQueue) && priorityQueue.maxQueueSize == scheduler_util.QueueCapacityInfinite
 //@     invariant forall i int :: 0 <= i && i < len(priorityQueue.queue.items) ==> (exists k in subGroups :: subGroups[k] == unbox(priorityQueue.queue.items[i], "*sgi.PodSet"))
 //@     invariant len(priorityQueue.queue.items) > 0 <==> (exists k in visited :: k in subGroups)
+//@   ensures [freshBacking] fresh(result.queue.items)
 //@   ensures result != nil && allPodSets(result)
 //@   ensures [members] forall i int :: 0 <= i && i < len(result.queue.items) ==> (exists k in subGroups :: subGroups[k] == unbox(result.queue.items[i], "*sgi.PodSet"))
 //@   ensures [nonEmpty] len(result.queue.items) > 0 <==> (exists k in subGroups :: true)
+//@ end
+
+// every queued pod set is one of the workload's pod sets
+//@ define queueOf(q *scheduler_util.PriorityQueue, pgi *PodGroupInfo) bool = allPodSets(q) && (forall i int :: 0 <= i && i < len(q.queue.items) ==> (exists k in pgi.PodSets :: pgi.PodSets[k] == unbox(q.queue.items[i], "*sgi.PodSet")))
+
+// C03 top (DESIGN: "with allocated >= min at most one"): a workload whose pod sets all have their minimum grows by at
+// most one task per attempt. For a pod set below its minimum the number of tasks taken is decided by
+// getNumTasksToAllocate[missingToMin] + getTasksFromQueue[exactCount] (per pod set; a sum over the popped pod sets is
+// not expressible for the flat result slice). The result is cached.
+//@ func GetTasksToAllocate
+//@   props C03
+//@   requires setsOK(podGroupInfo) && allTasksOK(podGroupInfo)
+//@   modifies podGroupInfo.tasksToAllocate
+//@   loop 1
+//@     invariant subGroupPriorityQueue != nil && fresh(subGroupPriorityQueue) && fresh(subGroupPriorityQueue.queue.items)
+//@     invariant queueOf(subGroupPriorityQueue, podGroupInfo)
+//@     invariant numSubGroupsToAllocate >= 0 && len(tasksToAllocate) >= 0 && numSubGroupsToAllocate <= maxNumSubGroups
+//@     invariant (forall k in podGroupInfo.PodSets :: !belowMin(podGroupInfo.PodSets[k])) ==> len(tasksToAllocate) <= numSubGroupsToAllocate
+//@     invariant forall p *scheduler_util.priorityQueue :: !fresh(p) ==> p.items == old(p.items)
+//@     invariant forall c *interface{} :: !fresh(c) ==> *c == old(*c)
+//@     decreases len(subGroupPriorityQueue.queue.items)
+//@   ensures [cacheHit] old(len(podGroupInfo.tasksToAllocate)) > 0 ==> len(result) == old(len(podGroupInfo.tasksToAllocate))
+//@   ensures [cached] len(podGroupInfo.tasksToAllocate) == len(result)
+//@   ensures [elasticAtMostOne] old(len(podGroupInfo.tasksToAllocate)) == 0 && (forall k in podGroupInfo.PodSets :: !belowMin(podGroupInfo.PodSets[k])) ==> len(result) <= 1
+//@ end
+
+// C03 top (eviction): "it either keeps every pod set at or above its minimum (elastic shrink) or evicts all":
+// decided here without any assumption on the (external) queue order: if every pod set has surplus at most one task is
+// returned; the second result says whether the eviction is partial (fewer victims than active allocated pods).
+// With mixed pod sets (some with surplus, some without) which pod set is popped first depends on the order function
+// (DESIGN: assumption PodSetOrderFns = [subgrouporder], contract subgrouporder.PodSetOrderFn); then the number taken
+// from the popped pod set is decided by getMaxTasksToEvict + getTasksToEvictFromQueue[exactCount].
+//@ func getTasksToEvictWithSubGroups
+//@   props C03
+//@   requires setsOK(job) && allTasksOK(job)
+//@   modifies job.activeAllocatedCount
+//@   loop 1
+//@     invariant subGroupPriorityQueue != nil && fresh(subGroupPriorityQueue) && fresh(subGroupPriorityQueue.queue.items)
+//@     invariant queueOf(subGroupPriorityQueue, job)
+//@     invariant numEvictedSubGroups >= 0 && len(tasksToEvict) >= 0 && numEvictedSubGroups <= maxNumOfSubGroups
+//@     invariant (forall k in job.PodSets :: aboveMin(job.PodSets[k])) ==> len(tasksToEvict) <= numEvictedSubGroups
+//@     invariant forall p *scheduler_util.priorityQueue :: !fresh(p) ==> p.items == old(p.items)
+//@     invariant forall c *interface{} :: !fresh(c) ==> *c == old(*c)
+//@     decreases len(subGroupPriorityQueue.queue.items)
+//@   ensures [shrinkAtMostOne] (exists k in job.PodSets :: true) && (forall k in job.PodSets :: aboveMin(job.PodSets[k])) ==> len(result0) <= 1
+//@   ensures [partialFlag] result1 == (len(result0) < *job.activeAllocatedCount)
+//@   ensures [countKept] old(job.activeAllocatedCount) != nil ==> job.activeAllocatedCount == old(job.activeAllocatedCount) && *job.activeAllocatedCount == old(*job.activeAllocatedCount)
+//@ end
+
+//@ func GetTasksToEvict
+//@   props C03 C06
+//@   requires setsOK(job) && allTasksOK(job)
+//@   modifies job.activeAllocatedCount
+//@   ensures [shrinkAtMostOne] (exists k in job.PodSets :: true) && (forall k in job.PodSets :: aboveMin(job.PodSets[k])) ==> len(result0) <= 1
+//@   ensures [partialFlag] result1 == (len(result0) < *job.activeAllocatedCount)
+//@   ensures [countKept] old(job.activeAllocatedCount) != nil ==> job.activeAllocatedCount == old(job.activeAllocatedCount) && *job.activeAllocatedCount == old(*job.activeAllocatedCount)
+//@ end
+
+// C10 (pod groups bullet): installing the sub-group tree of ANY PodGroup object never panics; a PodGroup whose
+// SubGroups are rejected keeps the previous pod sets; without sub-groups the default pod set gets minAvailable =
+// max(Spec.MinMember, 1) >= 1 ("non-positive minimums").
+//@ func (*PodGroupInfo).setSubGroups
+//@   props C10
+//@   requires setsOK(pgi) && podGroup != nil
+//@   modifies pgi.RootSubGroupSet, pgi.PodSets, pgi.PodSets["default"].minAvailable, family(pgi.RootSubGroupSet.parent), family(pgi.RootSubGroupSet.groups), family(pgi.RootSubGroupSet.podSets)
+//@   ensures [rejectedKeepsOld] result != nil ==> pgi.PodSets == old(pgi.PodSets) && pgi.RootSubGroupSet == old(pgi.RootSubGroupSet)
+//@   ensures [rootSet] result == nil ==> pgi.RootSubGroupSet != nil
+//@   ensures [defaultMin] result == nil && pgi.PodSets == old(pgi.PodSets) && "default" in pgi.PodSets ==> pgi.PodSets["default"].minAvailable == max(podGroup.Spec.MinMember, 1)
 //@ end
